@@ -12,6 +12,7 @@
 import PolyVerif.Props.C12
 import PolyVerif.Props.C11
 import PolyVerif.Lemmas.GraphEval
+import PolyVerif.Lemmas.GraphSim
 
 namespace PolyVerif
 namespace C12
@@ -50,6 +51,70 @@ theorem reload_same_artifacts {E : Env V J} (hE : EnvOK E) {cmp : Name → Name 
     exact C11.read_fresh (absGraph P E g) hinit [] trivial _
   · rw [C11.read_fresh g0 h0 ops hv (σ n.id)]
     exact spec_corr hw hG (absGraph_holds P E hw.nodup) hr hr2 n hn
+
+/-! ### the editing session on the runtime (Lemmas/GraphSim: how each editing operation acts on C11's graph) -/
+
+/-- the editing operations of a session, reads dropped -/
+def editsOf : List (Ev J) → List (Op J)
+  | [] => []
+  | .edit op :: r => op :: editsOf r
+  | .read _ :: r => editsOf r
+
+/-- the edited graph of a session is the C12 `run` of its editing operations (reads do not edit) -/
+theorem session_graph (P : Procs V W) (E : Env V J) (s : Sim V) (evs : List (Ev J)) :
+    (simRun P E s evs).1.g = run E s.g (editsOf evs) := by
+  induction evs generalizing s with
+  | nil => rfl
+  | cons ev evs ih =>
+    simp only [simRun]
+    rw [ih]
+    cases ev with
+    | read id =>
+      have : (simStep P E s (.read id)).1 = s := by simp only [simStep]; split <;> rfl
+      rw [this]; rfl
+    | edit op =>
+      have : (simStep P E s (.edit op)).1.g = stepTotal E s.g op := by
+        simp only [simStep, stepTotal]
+        split <;> simp_all
+      rw [this]; rfl
+
+/-- **The simulation.**  For EVERY session — any interleaving of editing operations (failing ones included) and reads of
+    arbitrary nodes — started in a new application: the C11 runtime graph reached by the C11 calls the session makes
+    (`simRun … .2`: connect / disconnect / set value as `setInput`, `arrayAdd`, `arrayRemove`, `setParam`; reads as
+    `read`; create / delete / names / producers / metadata make no call), started from the graph in which the nodes the
+    session will create already sit unwired in their slots, HOLDS the edited graph `run E (Graph.init h) (editsOf evs)`
+    under the session's slot numbering: every node of the edited graph has, at its slot, a runtime node with its
+    parameter value, resp. its type's processor and exactly its wiring (array order included) — whatever the caches,
+    versions and flags have become.  The edited graph is well-formed, slots are distinct. -/
+theorem edit_simulation {E : Env V J} (hE : EnvOK E) (P : Procs V W) {F : Nat} (h : Hdr) (evs : List (Ev J)) :
+    let r := simRun P E (Sim.init h) evs
+    Holds P E r.1.σ (Nodes.run F (preGraph P E (createdTys P E (Sim.init h) evs)) r.2).1 r.1.g ∧
+      r.1.g = run E (Graph.init h) (editsOf evs) ∧ WF E r.1.g ∧
+      (∀ n ∈ r.1.g.nodes, ∀ m ∈ r.1.g.nodes, r.1.σ n.id = r.1.σ m.id → n.id = m.id) := by
+  have hI := sim_run hE (F := F) evs (simInv_init P E h (createdTys P E (Sim.init h) evs))
+  exact ⟨hI.holds, session_graph P E _ evs, hI.wf, hI.inj⟩
+
+/-- **Artifacts, for every reachable state** (no `HoldsGraph` hypothesis left).  Environmental hypotheses only:
+    `hE` (registered types sane, payload law), the comparator fit `hc` and at most one binary payload `hf` on the graph
+    that is saved (those of `decode_encode`), DETERMINISTIC PROCESSORS `P`, and ACYCLICITY of the session `hv` (the graph
+    is acyclic after every C11 call: the Go API does not reject cycles — `ConnectNodes` has no check — and a cycle
+    makes evaluation diverge).  Then for every node `n` of the edited graph — a producer in particular: the saved file
+    loads into a fresh application and reading `n` there returns exactly what reading `n` returns in the application
+    that was edited (and read) all along. -/
+theorem reload_same_artifacts_reachable {E : Env V J} (hE : EnvOK E) {cmp : Name → Name → Bool} (P : Procs V W)
+    {F : Nat} (hF : 0 < F) (h : Hdr) (evs : List (Ev J))
+    (hv : Nodes.Valid F (preGraph P E (createdTys P E (Sim.init h) evs)) (simRun P E (Sim.init h) evs).2)
+    (hc : ∀ n ∈ (simRun P E (Sim.init h) evs).1.g.nodes, ∀ T, E.types n.ty = some T → CmpOK cmp T n)
+    (hf : FilePayloadLast E (simRun P E (Sim.init h) evs).1.g)
+    (n : GraphIO.Node V) (hn : n ∈ (simRun P E (Sim.init h) evs).1.g.nodes) :
+    ∃ g', decode E Hdr.empty (encode E cmp (simRun P E (Sim.init h) evs).1.g) = .ok g' ∧
+      Nodes.val (Nodes.step F (absGraph P E g') (.read (idxOf g' n.id))).1 (idxOf g' n.id) =
+      Nodes.val (Nodes.step F (Nodes.run F (preGraph P E (createdTys P E (Sim.init h) evs))
+          (simRun P E (Sim.init h) evs).2).1 (.read ((simRun P E (Sim.init h) evs).1.σ n.id))).1
+        ((simRun P E (Sim.init h) evs).1.σ n.id) := by
+  obtain ⟨hH, _, hw, _⟩ := edit_simulation hE P (F := F) h evs
+  obtain ⟨g', hd, _, h1, h2⟩ := reload_same_artifacts hE hw hc hf P _ (preGraph_init P E _ hF) _ hv _ hH n hn
+  exact ⟨g', hd, h1.trans h2.symm⟩
 
 /-! ### an instance: a text producer over a title and an ordered array of parts -/
 
@@ -116,6 +181,36 @@ example :
     Nodes.val (Nodes.step 2 (absGraph aProcs aEnv aGraph) (.read (idxOf aGraph "Node-0"))).1 (idxOf aGraph "Node-0") = [5, 6, 7] := by
   refine ⟨⟨⟨aRank, aGraph_ranked⟩, absGraph_unprocessed _ _ _⟩, by decide, by decide, ?_, by decide⟩
   exact absGraph_holds _ _ (by decide)
+
+/-- a session with a delete, an id that is not a list position, and reads in the middle: two parameters are created,
+    the first is deleted, a text node is created (id `Node-2`, slot 2, list position 1), wired, read, edited, read -/
+def aSession : List (Ev Nat) :=
+  [.edit (.create "P"), .edit (.create "P"), .edit (.delete "Node-0"), .edit (.create "T"),
+   .edit (.setValue "Node-1" 6), .edit (.connect "Node-1" "Out" "Node-2" "Parts.0".toList), .read "Node-2",
+   .edit (.create "P"), .edit (.setValue "Node-3" 7), .edit (.connect "Node-3" "Out" "Node-2" "Parts.5".toList),
+   .edit (.connect "Node-3" "Out" "Node-2" "NoSuchPort".toList), .read "Node-9", .read "Node-2"]
+
+def aSessionRank (i : Nat) : Nat := if i = 2 then 1 else 0
+
+theorem aSession_ops : (simRun aProcs aEnv (Sim.init Hdr.empty) aSession).2 =
+    [.setParam 1 [6], .arrayAdd 2 0 1, .read 2, .setParam 3 [7], .arrayAdd 2 0 3, .read 2] := by
+  rfl
+
+/-- the hypotheses of `reload_same_artifacts_reachable` hold for this session, and both applications read `[6, 7]` -/
+example :
+    Nodes.Valid 2 (preGraph aProcs aEnv (createdTys aProcs aEnv (Sim.init Hdr.empty) aSession))
+      (simRun aProcs aEnv (Sim.init Hdr.empty) aSession).2 ∧
+    FilePayloadLast aEnv (simRun aProcs aEnv (Sim.init Hdr.empty) aSession).1.g ∧
+    (simRun aProcs aEnv (Sim.init Hdr.empty) aSession).1.g.nodes.map (·.id) = ["Node-1", "Node-2", "Node-3"] ∧
+    (simRun aProcs aEnv (Sim.init Hdr.empty) aSession).1.σ "Node-2" = 2 ∧
+    idxOf (simRun aProcs aEnv (Sim.init Hdr.empty) aSession).1.g "Node-2" = 1 ∧
+    Nodes.val (Nodes.step 2 (absGraph aProcs aEnv (simRun aProcs aEnv (Sim.init Hdr.empty) aSession).1.g) (.read 1)).1 1 = [6, 7] := by
+  refine ⟨?_, by decide, by decide, by decide, by decide, by decide⟩
+  rw [aSession_ops]
+  apply C11.valid_fixed_numbering aSessionRank _ (preGraph_ranked _ _ _ aSessionRank (by intro i; unfold aSessionRank; split <;> omega))
+  intro op hop
+  simp only [List.mem_cons, List.not_mem_nil, or_false] at hop
+  rcases hop with rfl | rfl | rfl | rfl | rfl | rfl <;> simp [Nodes.opRanked, aSessionRank]
 
 end C12
 end PolyVerif
